@@ -234,22 +234,39 @@ std::unique_ptr<Session> ocp_session(uint32_t pv, length_t nh, length_t nc, std:
     g_log.clear();
     return s;
 }
+constexpr uint32_t HH = (1u << O_H) | (1u << O_H_N);
 #define OCP_LIST(X)                                                                                                     \
-    X(0, 0u, 0u)                                                                                                        \
-    X(1, ALLO, 0u)                                                                                                      \
-    X(2, ALLO, ALLO)                                                                                                    \
-    X(3, (1u << O_GET_D) | (1u << O_CONSTR) | (1u << O_GCP) | (1u << O_GN), (1u << O_GN))                               \
-    X(4, (1u << O_ADD_Q_N) | (1u << O_R_PROD) | (1u << O_R_WORK) | (1u << O_CONSTR_N) | (1u << O_GET_D_N), (1u << O_R_PROD)) \
-    X(5, ALLO & ~((1u << O_S_PROD) | (1u << O_GN_N) | (1u << O_GET_D_N)), ALLO & ~((1u << O_S_PROD) | (1u << O_CONSTR)))
+    X(0, HH, 0u)                                                                                                        \
+    X(1, ALLO | HH, 0u)                                                                                                 \
+    X(2, ALLO | HH, ALLO | HH)                                                                                          \
+    X(3, HH | (1u << O_GET_D) | (1u << O_CONSTR) | (1u << O_GCP) | (1u << O_GN), (1u << O_GN))                          \
+    X(4, HH | (1u << O_ADD_Q_N) | (1u << O_R_PROD) | (1u << O_R_WORK) | (1u << O_CONSTR_N) | (1u << O_GET_D_N), (1u << O_R_PROD)) \
+    X(5, HH | (ALLO & ~((1u << O_S_PROD) | (1u << O_GN_N) | (1u << O_GET_D_N))), (ALLO | (1u << O_H)) & ~((1u << O_S_PROD) | (1u << O_CONSTR)))
+// problems without (part of) the output mapping: only when the wrapper can wrap them
+#define OCP_LIST_H(X)                                                                                                   \
+    X(6, 0u, 0u)                                                                                                        \
+    X(7, ALLO, ALLO)                                                                                                    \
+    X(8, ALLO | (1u << O_H), 0u)                                                                                        \
+    X(9, (1u << O_H_N) | (1u << O_GET_D) | (1u << O_CONSTR) | (1u << O_GCP), (1u << O_H_N))
 
+template <bool WithH>
 std::unique_ptr<Session> new_ocp(int idx, uint32_t has, uint32_t prov, uint32_t pv, length_t nh, length_t nc, std::string &status) {
     status = "bad-index";
     switch (idx) {
 #define X(i, H, P) case i: return ((H) == has && (P) == prov) ? ocp_session<(H), (P)>(pv, nh, nc, status) : nullptr;
         OCP_LIST(X)
 #undef X
-        default: return nullptr;
+        default: break;
     }
+    if constexpr (WithH) {
+        switch (idx) {
+#define X(i, H, P) case i: return ((H) == has && (P) == prov) ? ocp_session<(H), (P)>(pv, nh, nc, status) : nullptr;
+            OCP_LIST_H(X)
+#undef X
+            default: break;
+        }
+    }
+    return nullptr;
 }
 
 /// `DLControlProblem` lacks the two projection members that `ControlProblemVTable` requires (it
@@ -345,6 +362,9 @@ int main(int argc, char **argv) {
                 NATIVE_LIST2(X)
                 o << " ocp";
                 OCP_LIST(X)
+                if (eval_h_optional) {
+                    OCP_LIST_H(X)
+                }
 #undef X
                 std::cout << o.str() << '\n';
             } else if (op == "new") {
@@ -365,7 +385,7 @@ int main(int argc, char **argv) {
                     S = kind == "dl" ? new_dl(file, regfn, P, status) : new_dlocp(file, regfn, P, status);
                 } else if (kind == "ocp") {
                     int idx = (int)t.nat(); uint32_t has = (uint32_t)t.nat(), prov = (uint32_t)t.nat(), pv = (uint32_t)t.nat(); long nh = t.nat(), nc = t.nat();
-                    S = new_ocp(idx, has, prov, pv, nh, nc, status);
+                    S = new_ocp<eval_h_optional>(idx, has, prov, pv, nh, nc, status);
                 } else {
                     status = "bad-kind";
                 }
